@@ -333,7 +333,9 @@ REAL_VALUES = {
     "dict": {"user": "bob", "roles": ["x", "y"], "n": {"deep": [(), {}]}}, "falsy": (0, "", None, False), "big": "x" * 600,
 }
 REAL_NAMES = ["sid", "a", "S-1.x", "~t|k"]
-REAL_SECRETS = ["k", "s3cr\xe9t €", "\x00", "?!", "k" * 80]
+# secrets may be given as bytes (tob passes them through); since seed C15-k: byte secrets sharing a first byte / one holding
+# the other's first byte
+REAL_SECRETS = ["k", "s3cr\xe9t €", "\x00", "?!", "k" * 80, b"k1", b"k2", b"\x01\x02\x03", b"\x03\x04"]
 REAL_ALPHABET = ["", "A", "=", "?", "\x00", "\xe9"]      # "" = deletion
 
 
